@@ -175,3 +175,88 @@ def calibration(u: Unit):
                 order_ok = "self._pygmo_archi.wait_check" in rest and all(
                     rest.index("self._pygmo_archi.wait_check") < rest.index(c) for c in rest if c in ("self._get_champions", "self.get_best_individuals"))
     u.static("calib.wait_check", order_ok, ev.qualname, "every archi.evolve() is followed by wait_check() before champions are read")
+
+
+# ---- a failing run inside the sequential sweep --------------------------------------------------------------------------
+SEQ_REPLAY = lambda w: {"code": """
+import verif_probes as VP
+from pyxel.pipelines import DetectionPipeline, ModelFunction, Processor
+from pyxel.exposure import Readout
+from pyxel.observation import Observation, ParameterValues
+import types, sys
+mod = types.ModuleType('c09_models')
+def raiser(detector, level=0, kind='ProbeError'):
+    VP.probe(detector, level=level)
+    if level == 2:
+        raise {'ProbeError': VP.ProbeError, 'StopIteration': StopIteration, 'KeyError': KeyError, 'GeneratorExit': GeneratorExit, 'RuntimeError': RuntimeError}[kind]('fault at level 2')
+mod.raiser = raiser
+sys.modules['c09_models'] = mod
+VIOLATED, DETAIL = False, 'every failing run surfaced as its own exception and stopped the sweep'
+for kind in ('StopIteration', 'ProbeError', 'KeyError', 'RuntimeError'):
+    VP.LOG.clear()
+    pipe = DetectionPipeline(photon_collection=[ModelFunction(func='c09_models.raiser', name='r', arguments={'level': 0, 'kind': kind})])
+    obs = Observation(parameters=[ParameterValues(key='pipeline.photon_collection.r.arguments.level', values=[1, 2, 3, 4])], readout=Readout(times=[1.0]))
+    try:
+        obs.run_pipelines(Processor(detector=VP.detector(), pipeline=pipe), with_inherited_coords=True)
+        VIOLATED, DETAIL = True, f'a model raised {kind} in run 2 of 4: the observation returned a result instead of failing'
+        break
+    except BaseException as e:
+        ran = [x['kwargs'].get('level') for x in VP.LOG]
+        if type(e).__name__ != kind or max(ran) > 2:
+            VIOLATED, DETAIL = True, f'a model raised {kind} in run 2 of 4: surfaced as {type(e).__name__}; levels executed {ran}'
+            break
+""", "expect": "whatever a model raises in run k reaches the caller unchanged and no later run executes"}
+
+
+@unit("C09", "observation.sweep")
+def observation_sweep(u: Unit):
+    """Observation.run_pipelines (sequential path) around its per-run call: when run k fails with ANY exception (its class is
+    symbolic: StopIteration, KeyboardInterrupt, ... included), run_pipelines fails with that very exception and no run after k
+    is started; without a failure every entry is run once, in order."""
+    from . import C05 as _C05
+    fi = u.fn(f"{OBS}::Observation.run_pipelines")
+    oci = u.cls(f"{OBS}::Observation")
+    pmc = u.cls("pyxel/observation/misc.py::ProductMode")
+    n = 3
+    for fail_at in (None, 0, 1, 2):
+        cfg = Cfg("real")
+        boundary.install(cfg)
+        cfg.lib_overrides[("sym_attr", "exc")] = exc_attr
+        cfg.lib_overrides["symexc.add_note"] = exc_add_note
+        entries = [VOpaque("entry", z3.Int(f"entry{i}"), {"i": i}) for i in range(n)]
+
+        def single(ex, args, kwargs, fr, fail_at=fail_at):
+            item = args[1] if len(args) > 1 else kwargs.get("param_item")
+            ex.hold["started"].append(item)
+            if fail_at is not None and item is entries[fail_at]:
+                e = VSym("exc", ex.st.fresh_int("model_exc"))
+                ex.st.ghost["MODEL_EXC"] = e
+                raise PyExc(e)
+            return VOpaque("xr", ex.st.fresh_int("tree"), {"label": "tree"})
+        M = f"{OBS}::Observation."
+        cfg.contracts[M + "_run_single_pipeline"] = Contract(M + "_run_single_pipeline", single, "one exposure on a copy; a model's exception escapes unchanged (C09.single)")
+        cfg.contracts[M + "validate_steps"] = Contract(M + "validate_steps", lambda ex, args, kwargs, fr: NONE, "C08")
+        cfg.contracts[M + "_get_parameter_types"] = Contract(M + "_get_parameter_types", lambda ex, args, kwargs, fr: ex.st.alloc(HDict([])), "types")
+        cfg.contracts[f"{OBS}::_get_short_dimension_names_new"] = Contract(f"{OBS}::_get_short_dimension_names_new", lambda ex, args, kwargs, fr: ex.st.alloc(HDict([])), "names")
+        cfg.contracts["pyxel/observation/misc.py::ProductMode.get_parameters_item"] = Contract("pyxel/observation/misc.py::ProductMode.get_parameters_item",
+                                                                                               lambda ex, args, kwargs, fr: ex.st.alloc(HList(list(entries))), "enumeration (C05)")
+        cfg.lib_prefix["tqdm."] = lambda ex, f, args, kwargs, fr: args[0]
+
+        def setup(ex):
+            ex.hold = {"started": []}
+            mode = ex.st.alloc(HObj(pmc, {"parameters": ex.st.alloc(HList([]))}))
+            obs = ex.st.alloc(HObj(oci, {"parameter_mode": mode, "with_dask": VBool(False), "readout": NONE, "outputs": NONE, "_pipeline_seed": NONE}))
+            return [obs], {"processor": VOpaque("xr", None, {"label": "processor", "truthy": True}), "with_inherited_coords": VBool(True)}
+        ps = u.paths(fi, setup, cfg, label=f"Observation.run_pipelines[fail_at={fail_at}]")
+        for p in ps:
+            started = p.ex.hold["started"]
+            if fail_at is None:
+                u.oblige(p, "sweep.all_runs_in_order", bool(p.kind == "return" and len(started) == n and all(a is b for a, b in zip(started, entries))), {}, SEQ_REPLAY)
+                continue
+            e = p.st.ghost.get("MODEL_EXC")
+            same = p.kind == "raise" and isinstance(p.value, VSym) and e is not None and z3.eq(p.value.t, e.t)
+            from pyvc.engine import exc_subclass
+            w = {"fails_at_run": fail_at, "is_StopIteration": exc_subclass(e.t, z3.StringVal("StopIteration")) if e is not None else None}
+            u.oblige(p, f"sweep.failure_surfaces_unchanged[{fail_at}]", bool(same), w, SEQ_REPLAY)
+            u.oblige(p, f"sweep.no_run_after_failure[{fail_at}]", bool(len(started) == fail_at + 1), dict(w, started=len(started)), SEQ_REPLAY)
+        u.cover(f"sweep.cover[{fail_at}]", ps, lambda p: True)
